@@ -39,7 +39,7 @@ REQUIRED = dict(monitors=['deck-opaque-at-or-below-top', 'deck-zero-above', 'dec
                          'retune:flat', 'retune:lee', 'retune:evaluation-after-write', 'retune:pressure-range-written',
                          'retune:pressure-moved-by:array-refilled-in-place', 'retune:pressure-moved-by:fitting-parameters',
                          'retune:deck-top-stepped-across-a-layer-pressure-by-a-hair',
-                         'retune:dozens-of-particle-sizes-earlier-ones-again'])
+                         'retune:dozens-of-particle-sizes-earlier-ones-again', 'pressure-grid:integer-array'])
 
 
 def classify(f):
@@ -81,8 +81,27 @@ def levels_of(spec):
 def run_pair(ctx, spec, extra):
     clear = base.run_model(ctx, base.realise(spec))
     s2 = dict(spec, contributions=list(spec['contributions']) + [extra])
-    hazy = base.run_model(ctx, base.realise(s2))
+    hm = base.realise(s2)
+    hazy = base.run_model(ctx, hm)
+    if hazy is not None:
+        hazy['model_levels'] = np.array(hm.pressure.pressure_profile_levels, dtype=float)
+        hazy['model_P_dtype'] = str(np.asarray(hm.pressureProfile).dtype)
     return clear, hazy, s2
+
+
+def integer_grid(ctx, rng, spec):
+    """The layer pressures as the caller's own INTEGER array (whole pascals, as a user writes them down or a file of
+    integers delivers them); True if the world could be set up that way."""
+    s_ = dict(spec, pressure_route='array', pressure_dtype='int64')
+    if s_['pmin'] < 50.0:
+        s_['pmin'] = float(10 ** rng.uniform(1.7, 2.5))
+    if s_['pmax'] < 1e3 * s_['pmin'] or s_['temperature']['kind'] == 'npoint' or not world.is_bound(s_):
+        return spec, False
+    q_ = np.round(world.layer_pressures(s_['pmax'], s_['pmin'], s_['nlayers']))
+    if not (np.all(np.diff(q_) < 0) and q_[-1] >= 1):
+        return spec, False
+    ctx.observe('pressure-grid:integer-array')
+    return s_, True
 
 
 def sigma_of(snap, kls):
@@ -226,6 +245,9 @@ def judge_flat(ctx, clear, hazy, lev, bottom, top, mix, cls, spec=None, **w):
 
 def wl_flat(ctx, rng):
     spec = make_case(rng)
+    intgrid = False        # (the grey haze weights partly covered layers by edges it derives itself from the layer pressures;
+    #                         on a grid that is not log-spaced -- rounded integers -- those are not the profile's levels, and
+    #                         the statement does not say which count: the integer grid is driven for the Lee haze only)
     lev, lay = levels_of(spec)
     bottom, top, cls = draw_window(rng, lev, 'flat')
     mix = float(10 ** rng.uniform(-40, -22))
@@ -234,6 +256,10 @@ def wl_flat(ctx, rng):
     clear, hazy, s2 = run_pair(ctx, spec, {'name': 'FlatMie', 'flat_mix_ratio': mix, 'flat_bottomP': bottom, 'flat_topP': top})
     if clear is None or hazy is None:
         return
+    if intgrid:
+        lev = hazy['model_levels']
+        cls = window_class(bottom, top, lev)
+        ctx.check('integer-pressure-array-reaches-the-model', hazy['model_P_dtype'].startswith('int'), dtype=hazy['model_P_dtype'])
     sig = judge_flat(ctx, clear, hazy, lev, bottom, top, mix, cls, spec=s2)
     ctx.sig('flat', spec['nlayers'], cls, round(spec['planet_mass'], 6), round(math.log10(mix), 3))
     ctx.sample({'kind': 'FlatMie', 'class': cls, 'nlayers': spec['nlayers'], 'bottomP': bottom, 'topP': top,
@@ -265,6 +291,9 @@ def judge_lee(ctx, clear, hazy, lev, bottom, top, a, q, mix, cls, spec=None, **w
 
 def wl_lee(ctx, rng):
     spec = make_case(rng)
+    intgrid = False
+    if ctx.case['index'] % 6 == 1:
+        spec, intgrid = integer_grid(ctx, rng, spec)
     lev, lay = levels_of(spec)
     bottom, top, cls = draw_window(rng, lev, 'lee')
     a = float(10 ** rng.uniform(-3, 0.7))
@@ -276,6 +305,10 @@ def wl_lee(ctx, rng):
                                            'lee_mie_bottomP': bottom, 'lee_mie_topP': top})
     if clear is None or hazy is None:
         return
+    if intgrid:
+        lev = hazy['model_levels']               # the levels the array profile derives from the (rounded) layer pressures
+        cls = window_class(bottom, top, lev)
+        ctx.check('integer-pressure-array-reaches-the-model', hazy['model_P_dtype'].startswith('int'), dtype=hazy['model_P_dtype'])
     sig, nz = judge_lee(ctx, clear, hazy, lev, bottom, top, a, q, mix, cls, spec=s2)
     ctx.sig('lee', spec['nlayers'], cls, round(spec['planet_mass'], 6), round(a, 6))
     ctx.sample({'kind': 'LeeMie', 'class': cls, 'nlayers': spec['nlayers'], 'bottomP': bottom, 'topP': top,
